@@ -333,6 +333,8 @@ def main(factory_mod, factory_name, argv=None):
                 break
             for fut in done:
                 pending.discard(fut)
+                if fut.cancelled():
+                    continue
                 try:
                     o = fut.result()
                 except BaseException as e:
@@ -362,8 +364,9 @@ def main(factory_mod, factory_name, argv=None):
                 break
             if any(v["violation"].get("key") not in known_keys for v in agg["violations"]):
                 # an unlisted violation decides the outcome; finish what is running, submit nothing new
-                for f in pending:
-                    f.cancel()
+                for f in list(pending):
+                    if f.cancel():
+                        pending.discard(f)
                 nxt = n_runs
             submit_more()
         if timed_out:
